@@ -17,6 +17,7 @@ from ..sym import NotEncodable
 
 PID = "C10"
 RMAX = 20.0
+RMAX_W = 1.0e5      # Wagner is scale invariant: no reason to bound the soft values tightly (min-sum clips at +-500 by design)
 
 
 def quiet(f, *a, **k):
@@ -46,7 +47,7 @@ def wagner_item(item, tl):
     nvar = int(torch.Size(shape).numel())
     names = [f"r{i}" for i in range(nvar)]
     blocks = nvar // n
-    assume = [z3.And(z3.Real(nm) >= -RMAX, z3.Real(nm) <= RMAX, z3.Real(nm) != 0) for nm in names]
+    assume = [z3.And(z3.Real(nm) >= -RMAX_W, z3.Real(nm) <= RMAX_W, z3.Real(nm) != 0) for nm in names]
     # ties excluded: magnitudes pairwise distinct inside each block
     for b in range(blocks):
         for i in range(n):
@@ -102,7 +103,7 @@ def wagner_item(item, tl):
                 return obs
         r = elems(R["r"])
         chat, cw = elems(R["chat"]), elems(R["cw"])
-        bad = []
+        bad, big = [], []
         for b in range(blocks):
             corr_hat = 0
             corr_w = 0
@@ -111,8 +112,12 @@ def wagner_item(item, tl):
                 corr_hat = S.add(corr_hat, S.mul(ri, S.sub(1, S.mul(2, chat[b * n + i]))))
                 corr_w = S.add(corr_w, S.mul(ri, S.sub(1, S.mul(2, cw[b * n + i]))))
             bad.append(S.zbool(S.gt(corr_w, S.add(corr_hat, 1e-6))))
+            big.append(S.zbool(S.gt(corr_w, S.add(corr_hat, 0.25))))
         st, model = decide(ctx, zor(bad))
         if st == "violated" and viol is None:
+            st2, m2 = decide(ctx, zor(big))       # prefer a witness with a material gap (representable in float32)
+            if st2 == "violated":
+                model = m2
             vals = [float(S.zval(model, z3.Real(nm))) for nm in names]
             rep, detail = real_check(vals)
             viol = dict(what=detail or f"llr={vals}: a better codeword exists", witness={"llr": vals}, replay={"reproduced": rep})
@@ -337,7 +342,7 @@ def main():
     from kaira.models.fec.decoders import wagner_soft_decision_decoder as W, min_sum_ldpc as M, belief_propagation as BP, reed_muller_decoder as RM
     ck.encoded(W.WagnerSoftDecisionDecoder.forward, M.MinSumLDPCDecoder.compute_cv_minsum, BP.BeliefPropagationDecoder.forward, BP.BeliefPropagationDecoder.compute_vc,
                BP.BeliefPropagationDecoder.marginalize, RM.ReedMullerDecoder.forward)
-    ck.bound("wagner", f"SPC k = 1..{tier(4, 6)}, layouts (n,), (2,n), (2,2n), (3,n); all real LLR vectors |r| <= {RMAX} without ties against all 2^k competitors (one query per path)")
+    ck.bound("wagner", f"SPC k = 1..{tier(4, 6)}, layouts (n,), (2,n), (2,2n), (3,n); all real LLR vectors |r| <= {RMAX_W} without ties against all 2^k competitors (one query per path)")
     ck.bound("min-sum", "check update rule on single-check codes of degree 2..4 with scaling/offset options; clean decoding + invariance to rescaling by 3 on two small LDPC matrices, 1..2 (3) iterations")
     ck.assume("floats of symbolic quantities are reals; ties and exact-zero LLRs excluded; tanh/atanh are uninterpreted functions (sum-product BP items are stretch); exact posteriors on cycle-free graphs are outside the claim (DESIGN §6)")
     ck.run_items(__name__, "work", items)
